@@ -4,6 +4,7 @@ Differential: every world is run once with all optional optimisations off (refer
 with seeded flag vectors; safety lists are computed on the scheduled thread pool, bound-based
 fixing goes through the queued-bound state, auxiliary solves receive status faults."""
 import copy
+import json
 import random
 
 from props import modelruns as mr
@@ -40,6 +41,10 @@ MFDC_OFF = {"use_min_gen_set_lowerbound": False, "optimize_with_guessed_weights"
 CLASSES = ["kFlowDecomp", "MinFlowDecomp", "kMinPathError", "kPathCover", "MinPathCover", "kLeastAbsErrors",
            "kFlowDecompCycles", "MinFlowDecompCycles", "kMinPathErrorCycles", "kPathCoverCycles", "MinPathCoverCycles", "kLeastAbsErrorsCycles",
            "MinFlowDecomp", "MinFlowDecompCycles", "kFlowDecompCycles", "kMinPathErrorCycles"]
+
+
+# witness of the listed known finding C05.objective_changed (k-dependent repetition cap of the walk models)
+PINNED = [json.loads('{"world": {"args": {"flow_attr_origin": "node", "optimization_options": {}, "solver_options": {"threads": 1}, "weight_type": "int"}, "class": "MinFlowDecompCycles", "graph": {"edges": [["A", "d", null], ["10", "A", null], ["b", "source", null], ["A", "b", null], ["source", "A", null], ["A", "u", null], ["d", "A", null]], "kind": "digraph", "node_weights": [["A", null], ["d", 0], ["10", 1], ["b", 1], ["source", 1], ["u", 1]], "nodes": ["A", "d", "10", "b", "source", "u"], "routes": [["10", "A", "b", "source", "A", "u"]], "weights": [1]}}, "flags": {"optimize_with_guessed_weights": true}, "sim": {"faults": [], "latency": "instant", "only_aux_faults": true, "reply": "canonical", "reply_seed": 934963574}, "sched": {"pct_changes": 2, "policy": "pct", "seed": 365675431, "switch_p": 0.1}}')]
 
 
 def off_flags(cname):
